@@ -26,6 +26,9 @@ var c11Shapes = []string{
 // statement-level faults that are not an expression in a slot
 var c11StmtFaults = []string{
 	"for (q in 5) { }", "for (q in null) { }", "sc.k = 2", "sc.y++", "fx = --sc.y", "garr[0 - 9] = 1", "garr[2000000] = 1", "sc.k.l = 1", "fx = garr[0 - 9]",
+	// a literal that fails when evaluated, as a match pattern: top level, inside an array pattern, nested, as a later alternative
+	"fx = match (\"x\") { \"a\\q\" => 0 }", "fx = match ([\"x\"]) { [\"a\\q\"] => 0 }", "fx = match ([[\"x\"]]) { [[\"a\\q\"]] => 0 }",
+	"fx = match ([1, \"x\"]) { [1, \"a\\q\"] => 0 }", "fx = match (\"x\") { 1, \"a\\q\" => 0 }", "fx = match ([\"x\"]) { [1], [\"a\\q\"] => 0 }",
 }
 
 type faultVec struct {
